@@ -29,7 +29,7 @@ from refsftp import FXP, s, u32, u64
 from vloop import Livelock
 
 PROP = 'C14'
-SCRATCH = '/dev/shm/asyncssh-verif-c14'
+SCRATCH = '/dev/shm/asyncssh-verif-c14-%d' % os.getpid()       # unique per check run (workers are forked later)
 
 
 # ------------------------------------------------------------------ (a) client side matching
